@@ -192,9 +192,11 @@ func (s *Solver) Assert(t *Term) {
 }
 
 // Check runs check-sat on the current stack.
-func (s *Solver) Check() Result {
+func (s *Solver) Check() Result { return s.checkCmd("(check-sat)") }
+
+func (s *Solver) checkCmd(cmd string) Result {
 	t0 := time.Now()
-	s.send("(check-sat)")
+	s.send(cmd)
 	lines := s.sync()
 	s.Time += time.Since(t0)
 	s.Queries++
@@ -231,16 +233,21 @@ func (s *Solver) Check() Result {
 
 // CheckWith checks the stack plus extra assumptions (scoped).
 func (s *Solver) CheckWith(extra ...*Term) Result {
+	var refs []string
 	for _, e := range extra {
+		if e.IsConst() {
+			if e.C == 0 {
+				return Unsat
+			}
+			continue
+		}
 		s.Define(e)
+		refs = append(refs, e.ref())
 	}
-	s.Push()
-	for _, e := range extra {
-		s.send("(assert " + e.ref() + ")")
+	if len(refs) == 0 {
+		return s.Check()
 	}
-	r := s.Check()
-	s.Pop()
-	return r
+	return s.checkCmd("(check-sat-assuming (" + strings.Join(refs, " ") + "))")
 }
 
 // ModelValue is a value read back from the solver.
@@ -260,12 +267,7 @@ func (s *Solver) CheckModel(ts []*Term, extra ...*Term) (Result, []ModelValue) {
 	for _, t := range ts {
 		s.Define(t)
 	}
-	s.Push()
-	defer s.Pop()
-	for _, e := range extra {
-		s.send("(assert " + e.ref() + ")")
-	}
-	r := s.Check()
+	r := s.CheckWith(extra...)
 	if r != Sat || len(ts) == 0 {
 		return r, nil
 	}
